@@ -27,6 +27,7 @@ def plan(tier, seed):
     cids = [["main", i] for i in range(n)]
     cids += [["mods", i] for i in range(n // 12)]
     cids += [["dup", i] for i in range(n // 20)]
+    cids += [["alias", i] for i in range(n // 10)]
     return cids
 
 
@@ -42,7 +43,11 @@ def run_case(cid, rng, workdir):
     kw = {}
     if stratum == "dup":
         kw = {"layouts": ["ff", "itp+ff"]}
+    if stratum == "alias":
+        kw = {"layouts": ["ff", "itp+ff", "ff+itp"], "max_links": 0}
     case = paramcase.build(rng, profile="full", **kw)
+    if stratum == "alias":
+        _alias(rng, case)
     if stratum == "dup":
         if not _add_duplicates(rng, case):
             res["status"] = "rejected"
@@ -81,6 +86,29 @@ def run_case(cid, rng, workdir):
         violation(res, key + suffix, msg, PC.witness(case))
     # captured molecule after MapToMolecule: the disconnected copy must already be verbatim
     return res
+
+
+def _alias(rng, case):
+    """blocks whose atoms carry a residue name other than the block name (e.g. block PEO, atoms EO) and
+    residue-graph nodes with free-form labels (gen_seq -label) that are not part of any block"""
+    from ..gen import ff as FF
+    for b in case["spec"]["blocks"]:
+        if not b["multi"] and rng.random() < 0.6:
+            for a in b["atoms"]:
+                a["resname"] = b["name"][:1] + "x" + b["name"][1:]
+    ff_blocks = [x for x in case["spec"]["blocks"] if x["syntax"] == "ff"]
+    itp_blocks = [x for x in case["spec"]["blocks"] if x["syntax"] == "itp"]
+    files = []
+    for name, _ in case["files"]:
+        if name == "case.ff":
+            files.append((name, "\n".join(FF.render_blocks_ff(ff_blocks)) + "\n"))
+        else:
+            files.append((name, "\n".join(FF.render_blocks_itp(itp_blocks)) + "\n"))
+    case["files"] = files
+    for n in case["graph"]["nodes"]:
+        if rng.random() < 0.4:
+            n[rng.choice(["tag", "chiral", "charge", "mass", "atype"])] = rng.choice([7.5, "R", 3])
+    case["descr"]["alias"] = True
 
 
 def _is_replace_artifact(key, msg, ref):
